@@ -27,8 +27,8 @@ def _oracle(field):
 
 def _case_term(l):
     p = l.split()
-    _, vec, cfgfile, b64set, ok, rest, help_, n = p[:8]
-    blocks = p[8:]
+    _, isz, vec, cfgfile, b64set, ok, rest, help_, n = p[:9]
+    blocks = p[9:]
     fos = []
     for i in range(int(n)):
         (kind, group, goname, tag, hname, hdef, bound, usage, init, envhand, envobs, env, jfile, jb64, final,
@@ -39,8 +39,8 @@ def _case_term(l):
                        _KIND[kind], coq_bytes(group), coq_bytes(goname), coq_bytes(tag), coq_bytes(hname), coq_bytes(hdef),
                        "true" if bound == "1" else "false", coq_bytes(usage), coq_bytes(init), coq_bytes(envhand), coq_bytes(envobs),
                        _opt(env), _opt(jfile), _opt(jb64), _opt(final), _oracle(oracle)))
-    return "verdict_ok (check_case [%s] %s %s %s %s %s %s)" % (
-        ";\n     ".join(fos), _toks(vec), _opt(cfgfile), "true" if b64set == "1" else "false",
+    return "verdict_ok (check_case %s [%s] %s %s %s %s %s %s)" % (
+        isz, ";\n     ".join(fos), _toks(vec), _opt(cfgfile), "true" if b64set == "1" else "false",
         "true" if ok == "1" else "false", _toks(rest), "None" if help_ == "~" else ("(Some true)" if help_ == "1" else "(Some false)"))
 
 
@@ -65,7 +65,9 @@ CFG = dict(
     casesv=c09_casesv,
     sig=c09_sig,
     coq_sample={"quick": 40, "thorough": 200},
-    rule=("three fixed struct types (27 fields: all nine kinds at top level, nested and nested two deep, both tag syntaxes; 11 fields "
+    rule=("six fixed struct types (three of them reach ONE named block type at the paths Primary / Replica / Outer.Inner; FlagSets of all "
+          "types are built in one process in a seeded order); in 40 % of the cases the struct handed to NewFlagSet is pre-filled with "
+          "non-zero values in every field; (27 fields: all nine kinds at top level, nested and nested two deep, both tag syntaxes; 11 fields "
           "without tags; 10 fields with empty-name tags `,33,` `||def|` `|`, extra separators in the usage, an embedded struct, json tags "
           "incl. renamed keys and \"-\"); the tag text, group path and Go name of every field are reported and split by the MODEL; every field x every combination of (cli, env, JSON) mentioning it x JSON carrier (file via -config, "
           "CFG_CONFIG_B64, both, none) with the other fields random; targeted shapes (env set but empty, cli/env text equal to the "
@@ -77,7 +79,7 @@ CFG = dict(
                   "encoding/json is not modelled: the JSON overlay enters as the map field -> value the harness wrote into the JSON document",
                   "value texts outside Model/FlagValue.v's sub-language (all float64 texts, integers with '_', durations with '.', "
                   "base64 with CR/LF) are parsed by the Go standard library in the harness (oracle column of the case line)"],
-    assumptions=["strconv.IntSize = 64",
+    assumptions=["int/uint are bounded by strconv.IntSize, reported by the harness in every case line (o_int_size of the oracle record)",
                  "the environment, file system, base64 and JSON decoders and out-of-model value parsers are arbitrary functions (a 'world'); "
                  "every theorem quantifies over all worlds"],
 )
